@@ -341,7 +341,7 @@ func (ex *Exec) callFunction(fn *ssa.Function, args []Value, fvs []Value) (ret V
 		ex.matArgs(args)
 		return in(ex, fn, args)
 	}
-	if strings.HasSuffix(name, ".init") && fn.Pkg != nil && fn.Name() == "init" {
+	if fn.Name() == "init" && fn.Signature.Recv() == nil && fn.Pkg != nil && fn.Pkg.Func("init") == fn {
 		// package initialiser called from another initialiser: handled lazily
 		return nil
 	}
